@@ -324,8 +324,11 @@ def run_numjac(task):
         m = len(sub.x_)
         worst = 0.0
         rows = []
-        for (t, y) in task["states"]:
+        for st in task["states"]:
+            t, y = st[0], st[1]
             y = np.array(y[:m], dtype=float)
+            if len(st) > 2 and st[2] is not None:
+                mi.step(st[2], y, None)          # an adaptive stepper evaluated the derivative at another (later) time first
             Jn, _ = mi.numerical_jacobian(t, y, None)
             fd = np.zeros((m, m))
             h = 1e-6
